@@ -66,7 +66,7 @@ class AllocAnalysis(Analysis):
         e = strip(e)
         if e is not None and e.k == "CallExpr":
             c = callee(e)
-            if c[0] == "fn" and c[1] in ALLOCS:
+            if c[0] == "fn" and (c[1] in ALLOCS or c[1] in getattr(self, "extra", ())):
                 return c[1], e
         return None, None
 
@@ -411,3 +411,57 @@ def analyse_tu(tu):
                 stats={"alloc_sites": sites, "realloc_sites": reallocs,
                        "free_member_sites": frees, "size_store_sites": sizes,
                        "functions": funcs, "raw_sites": raw_sites, "wrappers": wrappers})
+
+
+# ---------------------------------------------------------------------------
+# NULL-RESULT (C16): the same dataflow, for the repository's own functions
+# that can return NULL (activation of a ghost failed, empty tree, ...).
+
+def may_return_null(tu):
+    out = set()
+    for name in tu.order:
+        fn = tu.funcs[name]
+        rt = (fn.t or "").split("(")[0].strip()
+        if not rt.endswith("*") or rt.startswith(("char", "const char", "void")):
+            continue
+        body = tu.body(name)
+        if body is None:
+            continue
+        for n in body.walk():
+            if n.k == "ReturnStmt" and n.kids and const_int(n.kids[0]) == 0:
+                out.add(name)
+                break
+    return out - ALLOCS
+
+
+def analyse_null_results(tu):
+    extra = may_return_null(tu)
+    findings = []
+    sites = 0
+    for name in tu.order:
+        if not in_scope(name):
+            continue
+        fn = tu.funcs[name]
+        calls = [n for n in fn.walk() if n.k == "CallExpr" and callee(n)[0] == "fn" and callee(n)[1] in extra]
+        if not calls:
+            continue
+        sites += len(calls)
+        an = AllocAnalysis(CFG(fn), tu)
+        an.extra = extra
+        an.solve()
+        seen = set()
+        for rule, node, st, what, detail in sorted(an.reports, key=lambda r: r[1].line):
+            if rule != "ALLOC-CHECKED" or not any((" from %s " % x) in what for x in extra):
+                continue
+            head = what.split(" unchecked in ")[0]          # `<var> from <callee>`: first use only
+            if head in seen:
+                continue
+            seen.add(head)
+            findings.append(dict(
+                rule="NULL-RESULT", function=name, file=node.where.split(":")[0],
+                line=node.line, construct=head + " used without a NULL test",
+                detail="the callee returns NULL when it fails (a ghost that cannot be "
+                       "activated, an empty tree, a failed allocation); first use: %s; %s"
+                       % (what.split(" unchecked in ")[1], detail),
+                path=witness_lines(an.witness(node, st))))
+    return dict(findings=findings, stats={"null_result_sites": sites, "may_null_functions": len(extra)})
